@@ -87,7 +87,7 @@ PROP = {
                    "ctx.Done and on MaxElapsedTime with the error kept. The closure body is re-extracted from the source on every run and "
                    "proved equal to the model (extracted_retry_eq_model); the harness validates the model against the real code and clock.",
     "level_text": "proof",
-    "level_note": "All clauses are theorems over the model for all inputs; the model is tied to the current source by a kernel-checked "
+    "level_note": "Retry inside a Router (Ack iff the last call succeeded and its outputs were accepted; only that call's outputs are published) is composed from the retry model and the handleMessage model of C02 (Props/C12Router.lean); both ties are re-proved in this check. All clauses are theorems over the model for all inputs; the model is tied to the current source by a kernel-checked "
                   "equality with the extracted closure body and by differential execution. Real-time behaviour (timers, scheduler) and the "
                   "back-off library are modelled and validated by the harness, not verified.",
     "technique": "executable Lean model with time and randomness as script inputs; induction over the loop fuel; deep-embedded Go body + "
